@@ -81,6 +81,70 @@ func sendFailure(kind int) (error, string) {
 	return errSendFail, "fail"
 }
 
+// ctlCtx is the caller's context of one call. The schedule controller ends it
+// deterministically, as a cancellation or as an expired deadline. It implements
+// the AfterFunc method the context package looks for, so derived contexts
+// (context.WithCancel in the engine) are cancelled synchronously inside fire()
+// without any helper goroutine: settling stays exact.
+type ctlCtx struct {
+	mu    sync.Mutex
+	done  chan struct{}
+	err   error
+	funcs map[int]func()
+	next  int
+}
+
+func newCtlCtx() *ctlCtx { return &ctlCtx{done: make(chan struct{}), funcs: map[int]func(){}} }
+
+func (c *ctlCtx) Deadline() (time.Time, bool) { return time.Time{}, false }
+func (c *ctlCtx) Done() <-chan struct{}       { return c.done }
+func (c *ctlCtx) Value(any) any               { return nil }
+func (c *ctlCtx) Err() error {
+	c.mu.Lock()
+	defer c.mu.Unlock()
+	return c.err
+}
+
+// AfterFunc registers f to run when the context ends (context.afterFuncer).
+func (c *ctlCtx) AfterFunc(f func()) (stop func() bool) {
+	c.mu.Lock()
+	if c.err != nil {
+		// already ended (only reachable when fire() races with the registration in
+		// free-running schedules): like context.AfterFunc, run f in its own
+		// goroutine; the caller holds the child's mutex, so never call f inline.
+		c.mu.Unlock()
+		go f()
+		return func() bool { return false }
+	}
+	id := c.next
+	c.next++
+	c.funcs[id] = f
+	c.mu.Unlock()
+	return func() bool {
+		c.mu.Lock()
+		defer c.mu.Unlock()
+		_, ok := c.funcs[id]
+		delete(c.funcs, id)
+		return ok
+	}
+}
+
+func (c *ctlCtx) fire(err error) {
+	c.mu.Lock()
+	if c.err != nil {
+		c.mu.Unlock()
+		return
+	}
+	c.err = err
+	close(c.done)
+	fs := c.funcs
+	c.funcs = map[int]func(){}
+	c.mu.Unlock()
+	for _, f := range fs {
+		f()
+	}
+}
+
 type rpcError struct{ call int }
 
 func (e *rpcError) Error() string { return fmt.Sprintf("harness rpc error for call %d", e.call) }
@@ -119,13 +183,14 @@ type gating struct {
 }
 
 type callCfg struct {
-	MsgID      int64
-	SeqNo      int32
-	DecodeFail bool
-	FailSendAt int // transmission index that fails when sends are not gated (-1 none)
-	FailKind   int // 0/1 plain error, 2 context.Canceled, 3 context.DeadlineExceeded (context of the call NOT done)
-	DropFail   bool
-	Out        int // output index (calls created by redo share the output of their parent)
+	MsgID         int64
+	SeqNo         int32
+	DecodeFail    bool
+	FailSendAt    int  // transmission index that fails when sends are not gated (-1 none)
+	EndByDeadline bool // the "cancel" stimulus ends the caller's context with DeadlineExceeded instead of Canceled
+	FailKind      int  // 0/1 plain error, 2 context.Canceled, 3 context.DeadlineExceeded (context of the call NOT done)
+	DropFail      bool
+	Out           int // output index (calls created by redo share the output of their parent)
 }
 
 type worldCfg struct {
@@ -139,8 +204,8 @@ type worldCfg struct {
 
 type callState struct {
 	cfg     callCfg
-	ctx     context.Context
-	cancel  context.CancelFunc
+	ctx     *ctlCtx
+	cancel  func() // ends the context as a plain cancellation (clean-up paths)
 	started bool
 	act     *actor
 	sends   int // send.enter count
@@ -226,8 +291,8 @@ func newWorld(cfg worldCfg) *world {
 	w.t0 = time.Date(2024, 1, 1, 0, 0, 0, 0, time.UTC)
 	w.nt = neo.NewTime(w.t0)
 	for i := range cfg.Calls {
-		ctx, cancel := context.WithCancel(context.Background())
-		w.calls = append(w.calls, &callState{cfg: cfg.Calls[i], ctx: ctx, cancel: cancel})
+		ctx := newCtlCtx()
+		w.calls = append(w.calls, &callState{cfg: cfg.Calls[i], ctx: ctx, cancel: func() { ctx.fire(context.Canceled) }})
 	}
 	for i := range cfg.Calls {
 		if cfg.Calls[i].Out == i {
@@ -557,12 +622,11 @@ func classifyErr(w *world, ci int, err error) string {
 		return "senderr"
 	case errors.Is(err, errDecode):
 		return "decodeerr"
-	case err == context.Canceled:
-		return "ctxerr"
-	case errors.Is(err, context.Canceled):
-		if bytes.Contains([]byte(err.Error()), []byte("engine forcibly closed")) {
-			return "closed-acked"
-		}
+	case ci >= 0 && ci < len(w.calls) && err == w.calls[ci].ctx.Err():
+		return "ctxerr" // exactly the error of the caller's context (Canceled or DeadlineExceeded)
+	case errors.Is(err, context.Canceled) && bytes.Contains([]byte(err.Error()), []byte("engine forcibly closed")):
+		return "closed-acked"
+	case errors.Is(err, context.Canceled), errors.Is(err, context.DeadlineExceeded):
 		return "ctxerr-wrapped"
 	}
 	return "other:" + err.Error()
@@ -671,6 +735,13 @@ func (w *world) ackBatch(primary int, shape string) {
 const unknownIDBase = 0x7100000000
 
 func (w *world) cancelCall(i int) {
+	// the caller's context ends either by cancellation or, for calls configured
+	// with EndByDeadline, by its deadline (Err() == context.DeadlineExceeded)
+	if w.calls[i].cfg.EndByDeadline {
+		w.ev("cancel", i, 0, "deadline")
+		w.calls[i].ctx.fire(context.DeadlineExceeded)
+		return
+	}
 	w.ev("cancel", i, 0, "")
 	w.calls[i].cancel()
 }
